@@ -312,6 +312,21 @@ impl BuildJob<'_> {
         let mut dof = state::File::from_name(&mut ptx, &df.do_dir.join(&df.do_file), true)?;
         dof.set_static(ptx.state().env())?;
         dof.save(&mut ptx)?;
+        // From here until the result is recorded, the target's row in the database says
+        // "failed in this run".  The bookkeeping committed just now (old dependencies
+        // marked, the .do file and the absent higher-priority candidates re-declared and
+        // re-stamped) can already have erased the very evidence that made the target
+        // dirty -- e.g. its own .do file was removed and a default rule that is no newer
+        // than the target takes over.  If redo is killed before the build is recorded,
+        // nothing else tells a later run that the target still has to be built; a build
+        // that was started and never finished is a failed build.  (Only the row is
+        // marked: `sf` keeps its state for recording the result, and the old stamp stays
+        // in place so that a file the user edits meanwhile is still recognised as theirs.)
+        {
+            let mut started = sf.clone();
+            started.failed_runid = ptx.state().env().runid;
+            started.save(&mut ptx)?;
+        }
         let ps = ptx.commit().map_err(RedoError::opaque_error)?;
         logs::meta("do", state::target_relpath(ps.env(), &t)?.as_str(), None);
 
@@ -661,6 +676,7 @@ impl BuildJob<'_> {
             }
             sf.is_generated = true;
             sf.is_override = false;
+            sf.failed_runid = None; // the "started, not recorded yet" mark
             if sf.is_checked(ptx.state().env()) || sf.is_changed(ptx.state().env()) {
                 // it got checked during the run; someone ran redo-stamp.
                 // update_stamp would call set_changed(); we don't want that,
